@@ -540,18 +540,18 @@ def lsp_case(binpath, case, wsroot, libs_std, rng_seed, max_cursors, counters, s
             for dv in pool:
                 by_arena.setdefault(dv >> 32, []).append(dv & 0xFFFFFFFF)
             todo = []
-            for a in sorted(by_arena)[-4:]:          # the most recently allocated arenas = project units
+            for a in sorted(by_arena)[-3:]:          # the most recently allocated arenas = project units
                 ls_ = sorted(by_arena[a])
                 top = ls_[-1]
-                for k in ls_[-10:]:
+                for k in ls_[-6:]:
                     todo.append(pool[(a << 32) | k])
                 tmpl = pool[(a << 32) | top]
-                for k in range(max(0, top - 20), top + 3):
+                for k in range(max(0, top - 12), top + 3):
                     it = dict(tmpl)
                     it["data"] = (a << 32) | k
                     todo.append(it)
             keys = list(pool)
-            for dv in rnd.sample(keys, min(10, len(keys))):
+            for dv in rnd.sample(keys, min(6, len(keys))):
                 todo.append(pool[dv])
             state["cursor"] = [name, 0, 0]
             for it in todo:
@@ -653,8 +653,11 @@ def lsp_case(binpath, case, wsroot, libs_std, rng_seed, max_cursors, counters, s
                                                  "contentChanges": [ch]})
             check_diags(ls.sync(timeout=180.0))
             counters["states"] += 1
-            stale(n)
-            queries(n, k + 1)
+            # the batch families (70-700 whole-document changes): every state is analysed and its diagnostics checked,
+            # the queries run at every 8th state
+            if not case["family"].endswith("-batch") or k % 8 == 0:
+                stale(n)
+                queries(n, k + 1)
         ls.shutdown()
     except lsp.ServerDied as ex:
         try:
